@@ -168,7 +168,7 @@ class kMinPathErrorCycles(walkmodel.AbstractWalkModelDiGraph):
         self.subset_constraints = subset_constraints_internal
 
         if elements_to_ignore_percentile is not None:
-            if elements_to_ignore_percentile < 0 or elements_to_ignore_percentile > 100:
+            if not (0 <= elements_to_ignore_percentile <= 100):
                 utils.logger.error(f"{__name__}: elements_to_ignore_percentile must be between 0 and 100, not {elements_to_ignore_percentile}")
                 raise ValueError(f"elements_to_ignore_percentile must be between 0 and 100, not {elements_to_ignore_percentile}")
             if len(elements_to_ignore) > 0:
@@ -192,7 +192,7 @@ class kMinPathErrorCycles(walkmodel.AbstractWalkModelDiGraph):
         
         # Checking that every entry in self.error_scaling is between 0 and 1
         for key, value in error_scaling.items():
-            if value < 0 or value > 1:
+            if not (0 <= value <= 1):
                 utils.logger.error(f"{__name__}: Error scaling factor for {key} must be between 0 and 1.")
                 raise ValueError(f"Error scaling factor for {key} must be between 0 and 1.")
 
@@ -230,7 +230,7 @@ class kMinPathErrorCycles(walkmodel.AbstractWalkModelDiGraph):
         self.solve_time_start = time.perf_counter()
 
         if trusted_edges_for_safety_percentile is not None:
-            if trusted_edges_for_safety_percentile < 0 or trusted_edges_for_safety_percentile > 100:
+            if not (0 <= trusted_edges_for_safety_percentile <= 100):
                 utils.logger.error(f"{__name__}: trusted_edges_for_safety_percentile must be between 0 and 100.")
                 raise ValueError(f"trusted_edges_for_safety_percentile must be between 0 and 100.")
 
